@@ -119,6 +119,7 @@ def opUpd (w : World) (a : Args) : World × String :=
         -- (checked after the empty-pixel early return, line 582-587)
         let mistyped := match a.get? "vdtype", m.kind with
           | some t, .plain dt => t != dtCode dt
+          | some t, .packed => t != "b1"          -- a bit-packed map takes a boolean values array
           | some _, _ => true
           | none, _ => false
         if mistyped && !pix.isEmpty && !(a.getD "op" "replace" != "replace" && m.kind.isBool == false &&
